@@ -131,6 +131,31 @@ func c10Gen(seed uint64, tier string) any {
 	return sc
 }
 
+// longListDocs: long lists (dice pools) with holes, wrong elements or nested in other values.
+var longListDocs = func() []string {
+	ints := func(n int) []string {
+		var xs []string
+		for i := 0; i < n; i++ {
+			xs = append(xs, fmt.Sprintf(`{"t":0,"v":%d}`, i+1))
+		}
+		return xs
+	}
+	list := func(xs []string) string { return `{"t":6,"v":{"list":[` + strings.Join(xs, ",") + `]}}` }
+	var out []string
+	for _, n := range []int{15, 16, 17, 40} {
+		for _, hole := range []string{"null", `{"t":1,"v":1.5}`, `{"t":2,"v":"s"}`, `{"t":0}`, `{"t":0,"v":null}`, `{}`} {
+			xs := append(ints(n), hole)
+			out = append(out, list(xs))
+			ys := ints(n)
+			ys[n/2] = hole
+			out = append(out, list(ys))
+		}
+	}
+	inner := list(append(ints(20), "null"))
+	out = append(out, `{"t":7,"v":{"dict":{"pool":`+inner+`}}}`, `{"t":5,"v":{"expr":"1","attrs":{"pool":`+inner+`}}}`, list([]string{inner, inner}), list(ints(64)))
+	return out
+}()
+
 var schemaDocs = []string{
 	`{"t":9,"v":{"name":"nope"}}`, `{"t":9,"v":{}}`, `{"t":9}`, `{"t":9,"v":null}`, `{"t":10}`, `{"t":10,"v":null}`,
 	`{"t":6,"v":{"list":[null]}}`, `{"t":6,"v":{"list":[null,{"t":0,"v":1}]}}`, `{"t":6,"v":{"list":null}}`, `{"t":6,"v":{}}`, `{"t":6}`, `{"t":6,"v":null}`, `{"t":6,"v":[]}`, `{"t":6,"v":{"list":{}}}`,
@@ -155,6 +180,9 @@ func garbage(r *Rng) string {
 func structFault(base string, seed int) string {
 	r := NewRng(uint64(seed))
 	if r.Chance(1, 3) {
+		if r.Chance(1, 4) {
+			return Pick(r, longListDocs)
+		}
 		return Pick(r, schemaDocs)
 	}
 	dec := json.NewDecoder(strings.NewReader(base))
